@@ -48,3 +48,12 @@ func (db *DB) VerifShortIDs(ctx context.Context, collectionID string) (uint32, m
 	}
 	return shortID, out, nil
 }
+
+// VerifMergeCollectionVersion returns the version id of the collection version incoming commits are merged under.
+func (db *DB) VerifMergeCollectionVersion(ctx context.Context, collectionID string) (string, error) {
+	col, err := getCollectionFromCollectionID(ctx, db, collectionID)
+	if err != nil {
+		return "", err
+	}
+	return col.Version().VersionID, nil
+}
